@@ -3,6 +3,7 @@ Helper lemmas for C13: the abstract file system, the leaf operation
 `moveOutFile`, and the per-level combinators of the recursion.
 -/
 import Martian.PostProcess
+import Martian.PostProcessDefs
 
 namespace Martian.PostProcess
 
@@ -49,11 +50,6 @@ theorem stripPrefix_none_of_not_isPrefix {p q : Path} (h : isPrefix p q = false)
   | some r => simp [isPrefix, hq] at h
 
 /-! ## the leaf operation -/
-
-/-- An entry that is moved (not a symlink). -/
-def Entry.isLink : Entry → Bool
-  | .link _ => true
-  | _ => false
 
 theorem recoverMoved_free (ps dest p : Path) (fs : FS) (h : fs.get dest = none) :
     recoverMoved ps dest p fs = (.null, fs) := by
@@ -331,11 +327,5 @@ theorem handler_nofile (da : Bool) (ps : Path) (ty : Ty) (id on : String) (v : J
   | arr e k => simp [hasFile] at h; simp [handler, h]
   | tmap e => simp [hasFile] at h; simp [handler, h]
   | struct ms => simp [hasFile] at h; simp [handler, h]
-
-/-- a small file system used by the non-vacuity examples of Props.C13 -/
-def exFS : FS :=
-  { get := fun q => if q = ["ps", "MK", "files", "f"] then some (.file 7)
-      else if q = ["ps"] ∨ q = ["ps", "MK"] ∨ q = ["ps", "MK", "files"] then some .dir else none
-    dom := [] }
 
 end Martian.PostProcess
